@@ -619,7 +619,7 @@ func ruleT7b(c *Ctx) *RuleResult {
 func ruleP3b(c *Ctx) *RuleResult {
 	r := &RuleResult{Floor: 1, FloorWhat: "placeholder handlers"}
 	ro := c.roles()
-	get := c.Method("", "muxerServer", "getPathHandler")
+	get := c.pathTableFn("lookup")
 	if get == nil {
 		r.undecided("getPathHandler not found")
 		return r
